@@ -44,6 +44,7 @@ type Config struct {
 	RepoPfx       string
 	MaxPreempt    int
 	DelayMode     bool
+	FreezeMode    bool
 	DetSched      bool
 	ExploreSelect bool
 	Unstub        []string // environment models switched off for this run (the real code is interpreted)
@@ -115,6 +116,7 @@ type Interp struct {
 	live       sync.WaitGroup
 	ctl        chan pathEnd
 	delaysLeft int
+	freezesLeft int
 	Schedules  int
 
 	// library models
@@ -508,6 +510,7 @@ func (in *Interp) runOnce(fn *ssa.Function) {
 	in.steps = 0
 	in.depth = 0
 	in.delaysLeft = 0
+	in.freezesLeft = 0
 	in.ghost = map[string]Value{}
 	in.resetThreads()
 	in.ctl = make(chan pathEnd, 1)
